@@ -212,6 +212,18 @@ theorem C05_no_blocking_call_under_loop_lock :
         a.held.any Proofs.C15.loopLocks.contains)) = [] :=
   Proofs.C15.C15_blocking_calls_hold_no_loop_lock
 
+/-- **One model action = one atomic operation of the code** (regenerated from
+    the sources on every run).  `updateWindow` touches the window with exactly
+    one atomic `Add` — whose result also gives the previous value, action
+    `uAdd` — and `send` with a `Load` (action `sLoad`) followed by a
+    `CompareAndSwap` (action `sCas`).  A "read, then add" in `updateWindow`
+    would make `uAdd` two steps with the sender's CAS in between: a lost
+    wake-up the model cannot exhibit. -/
+theorem C05_actions_are_single_atomic_ops :
+    Proofs.C15.atomicOps TunnelModel.Generated.accessTable "defaultSender.updateWindow" "defaultSender" "currentWindow" = ["Add"] ∧
+    Proofs.C15.atomicOps TunnelModel.Generated.accessTable "defaultSender.send" "defaultSender" "currentWindow" = ["Load", "CompareAndSwap"] := by
+  decide +kernel
+
 /-- **Bounded transport buffering cannot stall a receive loop** (code-level
     premise, regenerated from the sources on every run): no function that can
     run on a receive-loop goroutine performs a carrier `Send` or invokes a
